@@ -25,12 +25,24 @@ def timegrid(V, cov, thorough):
     cases = C.parse_obs(open(os.path.join(d, "cases.dump")).read())
     at = C.quiet_atomica()
     tr = []
+    entry = {}
     for i, c in enumerate(cases):
         s, e, dt = [Fr(*c[k]) for k in ("start", "end", "dt")]
         if (e - s) / dt > 3000:
             continue
-        tv = at.ProjectSettings(float(s), float(e), float(dt)).tvec
-        tr.append(dict(id=i, start=c["start"], end=c["end"], dt=c["dt"], len=len(tv), tv=FX.fixseq(tv)))
+        # two entry points: the constructor, and update_time_vector(start, end, dt) on existing settings (what Project(sim_start=..,
+        # sim_end=.., sim_dt=..) and Project.update_settings do) - the old step and end year must not leak into the new grid
+        for j, how in enumerate(("ProjectSettings(start, end, dt)", "update_time_vector(start, end, dt)")):
+            if j == 0:
+                S = at.ProjectSettings(float(s), float(e), float(dt))
+            else:
+                S = at.ProjectSettings()
+                S.update_time_vector(start=float(s), end=float(e), dt=float(dt))
+            tv = S.tvec
+            end1 = float(S.sim_end)
+            S.sim_end = S.sim_end  # what calibrate() / run_optimization() do to restore the end year they shortened
+            tr.append(dict(id=2 * i + j, start=c["start"], end=c["end"], dt=c["dt"], len=len(tv), tv=FX.fixseq(tv), len2=len(S.tvec), end1=FX.fix(end1), end2=FX.fix(float(S.sim_end))))
+            entry[2 * i + j] = how
     path = os.path.join(d, "trace.json")
     json.dump(tr, open(path, "w"))
     r2 = C.run_tlc(d, "TimeGridTrace", cfg="TimeGridTrace.cfg", workers=1, env={"TRACE_FILE": path}, xss="512m", timeout=1200)
@@ -47,8 +59,8 @@ def timegrid(V, cov, thorough):
         if r2.postcondition_failed:
             raise C.MachineryError("TimeGridTrace did not consume the trace")
     for cid, clause in bad[:40]:
-        c = cases[cid]
-        V.violation("C03 %s ProjectSettings.tvec" % clause, dict(case=c, clause=clause, observed_len=[t["len"] for t in tr if t["id"] == cid]))
+        c = cases[cid // 2]
+        V.violation("C03 %s %s" % (clause, entry[cid].split("(")[0]), dict(case=c, clause=clause, entry=entry[cid], observed_len=[t["len"] for t in tr if t["id"] == cid]))
     cov["states"] += r.distinct + r2.distinct
     cov["transitions"] += r.generated + r2.generated
     cov["timegrid_cases"] = len(tr)
